@@ -49,7 +49,11 @@ def run(tier, seed):
         # the result and the source are independent sketches afterwards (whatever the scale): mutate one, the other is unchanged
         jr0 = b.emit("kobs r"); jst0 = b.emit("kstats r") if exact else None
         b.emit("kadd s %s" % f2h(7.5), "ok"); b.emit("kadd s %s %s" % (f2h(-3.25), f2h(2.0)), "ok")
-        b.emit("kobs r", ("same", jr0))
+        def same_bins(a, env, impl, j=jr0):
+            # converted weights are non-dyadic: totals of hash-map stores depend on the summation order, compare the bins
+            ha, pa, na = split_kobs(a); h0, p0, n0 = split_kobs(impl[j])
+            return None if (pa.split("bins=")[1], na.split("bins=")[1], ha["zero"]) == (p0.split("bins=")[1], n0.split("bins=")[1], h0["zero"]) else "the result changed when the source was modified: %r vs %r" % (a[:200], impl[j][:200])
+        b.emit("kobs r", same_bins)
         if exact: b.emit("kstats r", ("same", jst0))
         js0 = b.emit("kobs s"); jss0 = b.emit("kstats s") if exact else None
         b.emit("kadd r %s" % f2h(11.0 * scale), "ok"); b.emit("kclear r", "ok")
